@@ -31,7 +31,7 @@ Lemma Inv_def o pre fb gb ft s ss l be gmn fds (devflag : bool) (devs : list (N 
                (ss_ref ss) (ss_msgs ss) (ss_unkm ss) (ss_unkf ss)).
 Proof.
   intros [H1 H2 H3 H4 H5 H6 H7 H8 H9] Hl Hc Hcan.
-  constructor; cbn [with_defs ds_defs ds_ts ds_lastoff ds_unkf ds_unkm ds_file ds_g ss_env ss_ref ss_msgs ss_unkm ss_unkf];
+  constructor; cbn [with_defs ds_defs ds_ts ds_lastoff ds_hasts ds_unkf ds_unkm ds_file ds_g ss_env ss_ref ss_msgs ss_unkm ss_unkf];
     try assumption.
   - now rewrite set_nth_length.
   - intros l' Hl'. rewrite lookup_def_cons.
@@ -44,14 +44,14 @@ Qed.
 
 (* ------------------------------------------------------------ one record *)
 Theorem record_step : forall o pre fb gb ft s ss r ss' tl t n lim,
-  Inv o pre fb gb ft s ss -> rec_wf r = true -> record_time_ok ss r = true -> denote_record ss r = Some ss' ->
+  Inv o pre fb gb ft s ss -> rec_wf r = true -> denote_record ss r = Some ss' ->
   (n + List.length (ser_record r) <= lim)%nat ->
   exists s',
     run_a (parse_record o) (ast_at (ser_record r) tl t n lim) s =
       ROk tt (ast_at [] tl t (n + List.length (ser_record r)) lim) s' /\
     Inv o pre fb gb ft s' ss'.
 Proof.
-  intros o pre fb gb ft s ss r ss' tl t n lim HI Hwf Htime Hden Hlim.
+  intros o pre fb gb ft s ss r ss' tl t n lim HI Hwf Hden Hlim.
   unfold rec_wf in Hwf. apply andb_prop in Hwf. destruct Hwf as [Hbytes Hextra].
   destruct r as [l be gmn fds devflag devs|l pay dev|l off pay dev].
   - (* definition *)
@@ -72,7 +72,7 @@ Proof.
     change (l :: pay ++ dev) with ([l] ++ pay ++ dev) in Hbytes.
     apply all_bytes_app in Hbytes. destruct Hbytes as [_ Hbytes]. apply all_bytes_app in Hbytes. destruct Hbytes as [Hbp _].
     destruct (data_record_ok o pre fb gb ft s ss l false l None pay dev ss' tl t (n + 1)%nat lim HI
-                (data_header_local l Hl16) eq_refl Hbp Htime Hden ltac:(lia)) as (s' & Hrun & HI').
+                (data_header_local l Hl16) eq_refl Hbp Hden ltac:(lia)) as (s' & Hrun & HI').
     exists s'. split; [|exact HI'].
     etransitivity; [exact Hrun|]. cbn [List.length]. rewrite app_length.
     f_equal. f_equal. lia.
@@ -85,7 +85,7 @@ Proof.
     apply all_bytes_app in Hbytes. destruct Hbytes as [_ Hbytes]. apply all_bytes_app in Hbytes. destruct Hbytes as [Hbp _].
     destruct (data_record_ok o pre fb gb ft s ss (0x80 + 32 * l + off) true l (Some off) pay dev ss' tl t (n + 1)%nat lim HI
                 (comp_header_local l off El4 Hextra)
-                (conj eq_refl (conj (comp_header_offset l off El4 Hextra) Hextra)) Hbp Htime Hden ltac:(lia))
+                (conj eq_refl (conj (comp_header_offset l off El4 Hextra) Hextra)) Hbp Hden ltac:(lia))
       as (s' & Hrun & HI').
     exists s'. split; [|exact HI'].
     etransitivity; [exact Hrun|]. cbn [List.length]. rewrite app_length.
@@ -98,13 +98,13 @@ Proof. destruct r; cbn [ser_record List.length app]; lia. Qed.
 (* ------------------------------------------------------------ the loop *)
 Theorem decode_denote_records : forall rs o pre fb gb ft s0 ss0 ss1 tl t n lim fuel,
   Inv o pre fb gb ft s0 ss0 ->
-  stream_wf rs = true -> no_time_quirk_from ss0 rs = true -> denote_from ss0 rs = Some ss1 ->
+  stream_wf rs = true -> denote_from ss0 rs = Some ss1 ->
   (n + List.length (ser_records rs) = lim)%nat -> (List.length rs < fuel)%nat ->
   exists s1,
     run_a (decode_file_data o fuel) (ast_at (ser_records rs) tl t n lim) s0 = ROk tt (ast_at [] tl t lim lim) s1 /\
     Inv o pre fb gb ft s1 ss1.
 Proof.
-  induction rs as [|r rest IH]; intros o pre fb gb ft s0 ss0 ss1 tl t n lim fuel HI Hwf Hq Hden Hlim Hfuel.
+  induction rs as [|r rest IH]; intros o pre fb gb ft s0 ss0 ss1 tl t n lim fuel HI Hwf Hden Hlim Hfuel.
   - destruct fuel as [|f]; [cbn in Hfuel; lia|]. cbn [ser_records flat_map List.length] in Hlim.
     cbn [decode_file_data]. rewrite run_more.
     replace (Nat.ltb n lim) with false by (symmetry; apply Nat.ltb_ge; lia).
@@ -112,17 +112,16 @@ Proof.
     exists s0. split; [|exact HI]. cbn [run_a ser_records flat_map]. f_equal. f_equal. lia.
   - destruct fuel as [|f]; [cbn in Hfuel; lia|]. cbn [List.length] in Hfuel.
     cbn [stream_wf forallb] in Hwf. apply andb_prop in Hwf. destruct Hwf as [Hwf1 Hwf].
-    cbn [no_time_quirk_from] in Hq. apply andb_prop in Hq. destruct Hq as [Hq1 Hq].
     cbn [denote_from] in Hden. destruct (denote_record ss0 r) as [ssm|] eqn:Edr; [|discriminate].
     change (ser_records (r :: rest)) with (ser_record r ++ ser_records rest) in *.
     rewrite app_length in Hlim. pose proof (ser_record_nonempty r) as Hne.
     cbn [decode_file_data]. rewrite run_more.
     replace (Nat.ltb n lim) with true by (symmetry; apply Nat.ltb_lt; lia).
     rewrite run_bind. rewrite ast_at_app.
-    destruct (record_step o pre fb gb ft s0 ss0 r ssm (ser_records rest ++ tl) t n lim HI Hwf1 Hq1 Edr ltac:(lia))
+    destruct (record_step o pre fb gb ft s0 ss0 r ssm (ser_records rest ++ tl) t n lim HI Hwf1 Edr ltac:(lia))
       as (sm & Hrun & HIm).
     rewrite Hrun. cbn [rbind]. rewrite ast_at_nil_app.
-    exact (IH o pre fb gb ft sm ssm ss1 tl t (n + List.length (ser_record r))%nat lim f HIm Hwf Hq Hden ltac:(lia) ltac:(lia)).
+    exact (IH o pre fb gb ft sm ssm ss1 tl t (n + List.length (ser_record r))%nat lim f HIm Hwf Hden ltac:(lia) ltac:(lia)).
 Qed.
 
 Print Assumptions decode_denote_records.
